@@ -23,6 +23,11 @@ var snapSeeds = []snapSeed{
 	{"full", 3, []uint64{1, 2, 3}, nil, []string{"T:1", "run", "update:1", "run", "update:1", "run", "update:1", "run", "update:1", "run"}, nil},
 	// follower n3 missed everything after the first update; the leader already took a snapshot and compacted
 	{"lagging", 3, []uint64{1, 2, 3}, nil, []string{"T:1", "run", "update:1", "run", "block:1:3", "update:1", "run", "update:1", "run", "update:1", "run", "update:1", "run", "snap:1", "run", "heal:1:3"}, nil},
+	// divergent follower that needs a snapshot: n1 was cut off as leader of term 2 with four uncommitted entries (5..8);
+	// n2 leads term 3, committed other entries at 5..8 with n3, took a snapshot at 8 and compacted; n1 is back
+	{"divergent", 3, []uint64{1, 2, 3}, nil, []string{"T:1", "run", "update:1", "run", "update:1", "run",
+		"block:1:2", "block:1:3", "update:1", "update:1", "update:1", "update:1", "run", "disc", "elect:2", "run",
+		"update:2", "run", "update:2", "run", "update:2", "run", "snap:2", "run", "heal:1:2", "heal:1:3"}, nil},
 	// a membership change is in flight while snapshots are requested
 	{"member", 3, []uint64{1, 2}, []uint64{3}, []string{"T:1", "run", "update:1", "run", "update:1", "run"}, []string{"promote:3", "remove:3"}},
 }
